@@ -186,8 +186,8 @@ def run(ck, replay=None):
     fws = {1: np.array([10 ** rng.uniform(-1, 1) for _ in range(nf)]), 2: np.array([10 ** rng.uniform(-1, 1) for _ in range(nf)])}
     # every formulation / back-end with every history of at most two solves (the shortest ones that separate "set up once,
     # then reuse" from "set up twice"), plus a sample (thorough: all) of the longer histories
-    short = [h for h in hists if len(h) <= 2]
-    longer = [h for h in hists if len(h) > 2]
+    short = [h for h in hists if len(h) <= 3]       # (three solves: e.g. reuse on A1, new set-up for A2, reuse on A2)
+    longer = [h for h in hists if len(h) > 3]
     sel = []
     for combo in combos:
         sel += [(combo, h) for h in short]
